@@ -29,7 +29,7 @@ def gates(tier):
             'restriction:blacklist': 100, 'restriction:blacklist:user_override': 15, 'restriction:whitelist': 150, 'restriction:whitelist_none': 100,
             'restriction:required': 100, 'restriction:forbidden': 150, 'restriction:instructor_var': 150,
             'restriction:numbered': 100, 'restriction:suffix': 80, 'restriction:name': 150,
-            'restriction:sibling': 60, 'restriction:sum_blacklist': 80, 'partial_credit_cheats': 200}
+            'restriction:sibling': 60, 'restriction:sibling_via_sampler': 60, 'aborted_parse_before_cheat': 30, 'restriction:sum_blacklist': 80, 'partial_credit_cheats': 200}
 
 
 def credited(out):
@@ -166,6 +166,14 @@ def run_required(ctx):
         scale = rng.choice(['', '3*'])
         formula = '%s(%s)' % (scale, cheat)
         wit = {'grader': cls_name, 'restriction': 'required', 'required': req, 'answer': ans}
+        if i % 3 == 0:
+            # history: a submission that does use the required function but whose parse is aborted (nesting too deep
+            # for the parser), then a never-parsed cheat
+            deep = '%s+%s1%s' % (ans, '(' * 400, ')' * 400)
+            d = lib.call(ctx, restricted, None, deep)
+            ctx.count('aborted_parse_before_cheat' if not d.returned else 'deep_submission_graded')
+            formula = '%s+0*%d' % (formula, 1000 + i * ctx.nshards + ctx.shard)
+            wit['history'] = 'deeply nested submission containing %s first (%s)' % (req, d.brief() if d.returned else type(d.exc).__name__)
         judge_cheat(ctx, 'required', twin, restricted, formula, ('InvalidInput',), wit)
         if i % 4 == 0:
             judge_honest(ctx, 'required', restricted, '%s(%s)' % (scale, ans), wit)
@@ -308,6 +316,44 @@ def run_siblings(ctx):
             ctx.count('cheats_refused')
 
 
+def run_sibling_sampler(ctx):
+    """A sibling that enters the scope only through a DependentSampler is just as unavailable to the student."""
+    from mitxgraders import FormulaGrader, MatrixGrader, ListGrader, DependentSampler
+    rng = ctx.rng
+    for i in range(ctx.n(320, 4000)):
+        cls = rng.choice([FormulaGrader, MatrixGrader])
+        dep = rng.choice(['sibling_1^2', 'sibling_1+1', '2*sibling_1'])
+        honest2 = {'sibling_1^2': '(x+1)^2', 'sibling_1+1': 'x+2', '2*sibling_1': '2*x+2'}[dep]
+        with_instructor = rng.random() < 0.7
+        second = cls(variables=['x', 'y'], sample_from={'y': DependentSampler(formula=dep)},
+                     **({'instructor_vars': ['y']} if with_instructor else {}))
+        ans2 = rng.choice(['y', 'y+0*x', ({'expect': 'y', 'grade_decimal': 1}, {'expect': '2*y', 'grade_decimal': 0.5})])
+        g = ListGrader(answers=['x+1', ans2], subgraders=[FormulaGrader(variables=['x']), second], ordered=True)
+        honest = lib.call(ctx, g, None, ['x+1', honest2])
+        ctx.ev()
+        ctx.count('honest_controls')
+        wit = {'answers': ['x+1', 'y'], 'y_sampled_as': dep, 'instructor_vars': ['y'] if with_instructor else []}
+        if not honest.returned or not all(e['ok'] is True for e in honest.value['input_list']):
+            ctx.violation('C09:sibling_sampler:honest_answer_refused', repr(honest.brief()), dict(wit, inputs=['x+1', honest2]))
+            continue
+        cheat = rng.choice([dep, '(%s)+0*sibling_1' % honest2, '(%s)+sibling_1-sibling_1' % honest2, '(%s)*sibling_1^0' % honest2,
+                            '(%s)+0*sin(sibling_1)' % honest2, '2*(%s)+0*sibling_1' % honest2] + (['y', '(%s)+0*y' % honest2] if with_instructor else []))
+        out = lib.call(ctx, g, None, ['x+1', cheat])
+        ctx.ev()
+        ctx.count('restriction:sibling')
+        ctx.count('restriction:sibling_via_sampler')
+        ctx.count('cheats_twin_credited')
+        wit = dict(wit, inputs=['x+1', cheat], outcome=out.brief())
+        ctx.nontrivial(['sibling_sampler', dep, cheat, cls.__name__])
+        if out.returned:
+            ctx.violation('C09:sibling_sampler:' + ('bypass_credited' if out.value['input_list'][1]['grade_decimal'] > 0 else 'graded_wrong_instead_of_rejected'),
+                          'student used a sibling / instructor variable: %r' % (out.value,), wit)
+        elif type(out.exc).__name__ != 'UndefinedVariable':
+            ctx.violation('C09:sibling_sampler:wrong_error_class', repr(out.exc), wit)
+        else:
+            ctx.count('cheats_refused')
+
+
 def run_siblings3(ctx):
     """A sibling variable introduced for one box must not become usable in another box (shared subgrader)."""
     from mitxgraders import FormulaGrader, ListGrader
@@ -402,6 +448,7 @@ def run(ctx):
     run_forbidden(ctx)
     run_names(ctx)
     run_siblings(ctx)
+    run_sibling_sampler(ctx)
     run_siblings3(ctx)
     run_sum(ctx)
     if ctx.shard == 0:
